@@ -28,15 +28,28 @@ pub fn word_for_roll(rng: &mut Rng, target: u32) -> [u8; 7] {
     }
 }
 
+thread_local! {
+    /// a few words per level, made on demand (finding one costs ~0.1 ms)
+    static WORDS: std::cell::RefCell<Vec<Vec<[u8; 7]>>> = std::cell::RefCell::new(vec![Vec::new(); 31]);
+}
+
 /// A word after which pieces end at levels 0..=level and not at level+1.
 pub fn trigger_word(rng: &mut Rng, level: u8) -> [u8; 7] {
-    let unit = 3u64 << level.min(30);
+    let level = level.min(30);
+    let have = WORDS.with(|w| w.borrow()[level as usize].len());
+    if have >= 24 || (have >= 4 && !rng.chance(1, 8)) {
+        let i = rng.below(have as u64) as usize;
+        return WORDS.with(|w| w.borrow()[level as usize][i]);
+    }
+    let unit = 3u64 << level;
     let kmax = (1u64 << 32) / unit; // multiples k*unit - 1 that fit in u32
     let mut k = 1 + rng.below(kmax.max(1));
     if k % 2 == 0 {
         k -= 1;
     }
-    word_for_roll(rng, (k * unit - 1) as u32)
+    let word = word_for_roll(rng, (k * unit - 1) as u32);
+    WORDS.with(|w| w.borrow_mut()[level as usize].push(word));
+    word
 }
 
 pub fn fill(rng: &mut Rng, out: &mut Vec<u8>, n: usize, style: u8) {
@@ -84,7 +97,13 @@ pub fn adversarial(rng: &mut Rng, size: usize, level: u8, pieces: usize, style: 
     }
     let rest = size.saturating_sub(out.len());
     fill(rng, &mut out, rest, style);
-    if rng.chance(1, 4) {
+    if rng.chance(1, 2) && !out.is_empty() {
+        // a non-zero tail, so that the pending piece is visible even with zero filler
+        let n = out.len();
+        for i in n.saturating_sub(rng.range(1, 3))..n {
+            out[i] = 1 + rng.below(255) as u8;
+        }
+    } else if rng.chance(1, 2) {
         // end with rolling hash 0 (the "nothing pending" case) or u32::MAX
         let t = if rng.chance(1, 3) { u32::MAX } else { 0 };
         let w = if rng.chance(1, 2) { [0u8; 7] } else { word_for_roll(rng, t) };
